@@ -1,6 +1,6 @@
 // C13 correspondence harness: Thread start/join, parallel_for, ThreadGroup, parallel_invoke, Semaphore, Condition.
 //   pfrow <i0> <nth> <lo> <hi>        parallel_for(i0, i1, f, nth) for every i1 in [lo,hi]: which indices ran, how often, grouped by thread
-//   thr <kind> <n> <reps>              kind: sub lam grp inv cpy  -> ran counts and finished() after join, worst over reps
+//   thr <kind> <n> <reps>              kind: sub lam grp inv cpy cpd  -> ran counts and finished() after join, worst over reps
 //   sem <ops>                          p = post, w = trywait  (single thread)  -> successes and final value
 //   semc <prod> <cons> <k>             concurrent posts and blocking waits, all must return
 //   cond <waiters> <reps>              documented condition-variable protocol, every waiter must return
@@ -31,7 +31,7 @@ static std::string pfOne(int i0, int i1, int nth)
 	volatile int outside = 0;
 	Cell* base = &cells[4];
 	Thread::parallel_for(i0, i1, [=, &outside](int i) {
-		int off = i - i0;
+		long long off = (long long)i - i0;
 		if (off < -4 || off >= len + 4) { __sync_add_and_fetch(&outside, 1); return; }
 		__sync_add_and_fetch(&base[off].count, 1);
 		base[off].who = (unsigned long)pthread_self();
@@ -86,6 +86,13 @@ static std::string thrOnce(const std::string& kind, int n)
 		for (int i = 0; i < n; i++) { ts.push_back(new Thread([r, i]() { jitter(); __sync_add_and_fetch(r + i, 1); })); cs.push_back(new Thread(*ts[i])); jitter(); }
 		for (int i = 0; i < n; i++) { cs[i]->join(); fin[i] = cs[i]->finished() ? 1 : 0; }
 		for (int i = 0; i < n; i++) { delete cs[i]; delete ts[i]; }
+	}
+	else if (kind == "cpd") {
+		// as cpy, but the original object is destroyed while its worker is still running
+		std::vector<Thread*> cs;
+		for (int i = 0; i < n; i++) { Thread* o = new Thread([r, i]() { usleep(2000 + 700 * i); __sync_add_and_fetch(r + i, 1); }); cs.push_back(new Thread(*o)); delete o; jitter(); }
+		for (int i = 0; i < n; i++) { cs[i]->join(); fin[i] = cs[i]->finished() ? 1 : 0; }
+		for (int i = 0; i < n; i++) delete cs[i];
 	}
 	else if (kind == "grp") {
 		ThreadGroup<SubThread> g;
@@ -156,6 +163,7 @@ static std::string step(const Toks& t)
 		for (int i1 = lo; i1 <= hi; i1++) r += (r.empty() ? "" : " ") + str(i1) + ":" + pfOne(i0, i1, nth);
 		return r;
 	}
+	if (t[0] == "pfx" && t.size() == 4) return pfOne((int)num(t[1]), (int)num(t[2]), (int)num(t[3]));
 	if (t[0] == "thr" && t.size() == 4) {
 		int n = (int)num(t[2]), reps = (int)num(t[3]);
 		std::string first;
